@@ -39,8 +39,9 @@ def tier_from_env(default="quick"):
     return t if t in ("quick", "thorough") else default
 
 
-class Timeout(Exception):
-    pass
+class Timeout(BaseException):
+    """raised by `time_limit`; a BaseException so that the `except Exception` handlers of the code under test (the
+    engine wraps author code in many of them) cannot swallow it"""
 
 
 @contextlib.contextmanager
@@ -49,7 +50,8 @@ def time_limit(seconds):
     def handler(signum, frame):
         raise Timeout()
     old = signal.signal(signal.SIGALRM, handler)
-    signal.setitimer(signal.ITIMER_REAL, seconds)
+    # repeating: should a handler of the code under test swallow the exception all the same, it is raised again
+    signal.setitimer(signal.ITIMER_REAL, seconds, 0.25)
     try:
         yield
     finally:
